@@ -35,6 +35,7 @@ FRAGMENTS = [
     '#...meta: format=pycon, length=9\n>>> 1\n1', '#.meta: format=rbcon\nirb> 1\r\n=> 1',
     '#.meta: format=robotframework\n*** Test ***\r\nx\r\n', '#.meta: format=doscon\nC:\\> dir\nx',
     '#.meta: format=yaml\na: 1', '#.meta: format=text\nplain', '#.meta: format=html\n<a>',
+    '@@ -1,2 +1,2\n', '@@@ -1 -1 +1\n', '@@ -\n', '#...diff:\n@@ -1 +1\n+x\n',
     '+x...\n', ' retry later...\n', '...\r\n', 'a...b\n', '....\n',
     '#.change: encoding=UTF-8\n', '#..file: encoding=utf_8\n',
     '#...meta: encoding=Utf8, format=json, length=3\n',
